@@ -696,12 +696,18 @@ def check_module(run, rng, model, m, tier, depth):
         # the bytes happen to be an encoding of the selected row's type: the C must decode them as that type
         f = mf.split()
         reenc.append("c18der %s %s" % (Fc, " ".join(f[2:])))
-        reenc_meta.append((replay, int(f[1]), o))
-    for (replay, n, o), d in zip(reenc_meta, mrun(model, reenc)):
+        reenc_meta.append((replay, int(f[1]), o, x, l))
+    for (replay, n, o, x, l), d in zip(reenc_meta, mrun(model, reenc)):
         run.count("mismatch_decodes_as_selected")
         if not o.startswith("OK %d %s " % (n, d)):
-            run.violation("correspondence:OpenType.dec_frame", dict(replay, what="bytes valid for the selected row's type: C result differs from the model's", model_der=d),
-                          no_input=True)
+            # the shared reference decoder does not look at constraints (INTEGER -5 under a row of type INTEGER (0..4294967295): the C's
+            # unsigned long member holds 251): what C18 states is that the bytes are read as exactly the selected row's type, so the C's
+            # standalone decoder of that very type is asked about the same inner bytes (below); without an OK there it is a violation
+            if o.startswith("OK %d " % n):
+                second.append((x, l, o, replay))
+            else:
+                run.violation("correspondence:OpenType.dec_frame", dict(replay, what="bytes valid for the selected row's type: C result differs from the model's", model_der=d),
+                              no_input=True)
     if second:
         ml, cl = [], []
         for x, l, o, replay in second:
@@ -890,9 +896,10 @@ def check_unset(run, rng, model, m, tier):
             run.known_finding("C18-unset-identifier-cell", l)
         elif row is not None and not has_type and o == "CRASH" and UNSET_TYPE_SIG.search(crashes.get(k, "")):
             run.known_finding("C18-unset-type-cell", l)              # SelRow r None: the NULL type descriptor is used
-        elif has_type and (spec.index(row) >= len(alts) or alts[spec.index(row)] != "T:" + row["types"][0]) and \
-                (o.startswith(("FAIL", "MORE", "OK")) or (o == "CRASH" and UNSET_TYPE_SIG.search(crashes.get(k, "")))):
-            run.known_finding("C18-unset-type-cell", l)              # presence_index = row + 1 is not the row's alternative
+        elif has_type and (spec.index(row) >= len(alts) or alts[spec.index(row)] != "T:" + row["types"][0]):
+            # presence_index = row + 1 is not the row's alternative: the value is stored under another row's alternative
+            # (or beyond the member array): refused, garbled, or a crash wherever the confused structure is used next
+            run.known_finding("C18-unset-type-cell", l)
         else:
             run.violation("crash:unset-field" if o == "CRASH" else "oracle:opentype_roundtrip(unset field)",
                           dict(replay, what="a frame of a set with unset OPTIONAL fields: %s" %
@@ -951,9 +958,14 @@ def corpus(rng, tier):
                                   idpool=WIDE_IDS if i % 2 else None, idkind="enum" if i % 4 == 1 else "int", bigvals=(i % 4 == 2),
                                   untagged=(i % 8 == 6)), "wide" if i % 4 == 3 else "cn"))
     # sets made of other sets, and of other sets next to objects (the objects are lost: C18-set-reference-drops-objects)
-    for i, st in enumerate(["refs", "refsext", "mixed"] if q else ["refs", "refsext", "mixed", "mixed", "refs", "mixed"]):
-        mods.append((shape_module(g, "MR%d" % i, setstyle=st, presence=rng.choice(["random", "complete"]), nrows=rng.choice([6, 7, 8]), idpool=WIDE_IDS,
-                                  directed=rng.choice([None, "one", "two"])), "cn" if i % 2 == 0 else "wide"))
+    # (the rows of a referenced set are CLONED into the referencing one, asn1p_class.c:asn1p_ioc_row_clone: optional fields before
+    #  mandatory ones, every subset of them inside the referenced sets)
+    styles = ["refs", "refsext", "mixed"] if q else ["refs", "refsext", "mixed", "mixed", "refs", "mixed", "refsext", "refs"]
+    shapes = ["first", "two", "typefirst", None, "one", "nested", "joint", None]
+    for i, st in enumerate(styles):
+        mods.append((shape_module(g, "MR%d" % i, setstyle=st, presence="every" if i % 4 != 3 else "random", nrows=rng.choice([6, 7, 8]), idpool=WIDE_IDS,
+                                  rowsorder=rng.choice([None, "alternate", "incomplete-first"]), directed=shapes[(i + (0 if q else rng.below(3))) % len(shapes)]),
+                     "cn" if i % 2 == 0 else "wide"))
     # an OPTIONAL type field the member uses / an OPTIONAL identifier field, unset by some object (recorded defects, judged by check_unset)
     for i in range(2 if q else 6):
         mq = shape_module(g, "MQ%d" % i, ncols=1, presence="every", rowsorder=rng.choice([None, "alternate", "complete-first"]), nrows=rng.choice([4, 5, 6]),
